@@ -47,7 +47,7 @@ def run(ck):
     tp = os.path.join(ck.dir, "g.ndjson")
     deaths = vlib.run_executions(exe, lambda st: ["c11", "replay", sp, st], len(scripts), tp)
     vlib.conformance(ck, "G:edge-cover-replay", "TraceStrBytes", "trace.cfg", tp, deaths, diag_of, min_events=len(scripts))
-    n = 8000 if thorough else 1500
+    n = 30000 if thorough else 1500
     tp = os.path.join(ck.dir, "v.ndjson")
     deaths = vlib.run_executions(exe, lambda st: ["c11", "drive", st, n, 14], n, tp)
     vlib.conformance(ck, "V:random-set-histories", "TraceStrBytes", "trace.cfg", tp, deaths, diag_of, min_events=n)
